@@ -43,6 +43,15 @@ def gen_cfg(r, i):
         # a likelihood with a hard cut INSIDE the prior support: a share of the proposal's draws has finite prior and log L = -inf
         # (they belong to the initial population like any other finite-prior draw)
         cfg["like_cut"] = -0.25 * cfg["half"]
+    if i % 10 in (3, 4, 8) and (i // 10) % 2 == 1 and cfg["width"] == "f64":
+        # parameters whose whole natural scale is far below 1e-12 (an amplitude of order 1e-13 in SI units), standardised by the affine
+        # preconditioning so that the kernels move: every displacement is tiny in absolute terms, and every row still stores the
+        # densities of ITS coordinates
+        sc = float(r.choice([1e-13, 1e-15, 1e-20]))
+        for k_ in ("prop_kind", "like_cut"):
+            cfg.pop(k_, None)
+        cfg.update(half=2.5 * sc, prop_sigma=2.0 * sc, prop_mu=0.0, like_center=0.8 * sc, like_width=0.6 * sc, tiny_scale=sc,
+                   precond={"bounded_to_unbounded": False, "affine_transform": True})
     if s.endswith("_smc") and r.random() < 0.4:
         cfg["n_final_samples"] = int(cfg["n_samples"] * r.choice([0.5, 2]))
     if s == "minipcn_smc":
